@@ -128,7 +128,7 @@ Proof.
   induction rem as [|r IH]; intros s H; simpl;
     destruct (get_m s m) as [x|] eqn:Hx; auto.
   - apply GMx_finish; auto. apply pend10_self; auto.
-  - destruct (m_bad x).
+  - destruct (nth (m_idx x) (m_bad x) false).
     + set (x' := set_m_idx x (S (m_idx x))).
       destruct (@GMx_upd s (put_m s m x') m x' H) as [A B]; try reflexivity.
       { eapply pend10_chg; [apply pend10_self; eauto|]; reflexivity. }
